@@ -18,8 +18,8 @@ RULE = (
     "whitespace-only, '(...)', '<...>', half-bracketed, mixed brackets '(...>' / '<...)', padded, '()', ')(', '(a)(b)', Unicode, "
     "multi-line, random XML-legal text), items and other elements, 1-5 stories per running order; "
     "(b) Hypothesis single steps and histories (states reached by merges, notably roStorySend bodies "
-    "whose storyItem children become items).  Paragraphs with inline child elements are excluded by "
-    "construction.  Oracle, from the direct children of each <story> in ro.xml: body = every <p> (its "
+    "whose storyItem children become items).  A quarter of the pristine documents carry comments / processing instructions in the middle of paragraph text (not part of the text).  Paragraphs with inline child elements are excluded by "
+    "construction.  Oracle, from the direct children of each <story> in an independent parse of str(ro): body = every <p> (its "
     "text, '' when empty) and every <item> (the library's Item must wrap an element equal to it) in "
     "document order; script = stripped text of each <p> whose text is non-empty after stripping and "
     "not wrapped in () or <>; RunningOrder.script / body = concatenation over stories in running "
@@ -32,7 +32,9 @@ MANDATORY = ['filtered:empty', 'filtered:whitespace', 'filtered:round', 'filtere
 
 def check(ro):
     fails = []
-    rc = ro.xml.find('roCreate')
+    # the document as an independent parser reads it (not the library's own tree: a tree built with
+    # other parser options - comments kept, say - would otherwise be its own oracle)
+    rc = ET.fromstring(str(ro)).find('roCreate')
     xs = [c for c in rc if c.tag == 'story']
 
     def mism(what, exp, got):
@@ -220,7 +222,14 @@ def para_ro(draw):
             else:
                 body.append(draw(gen.generic(depth=1)))
         stories.append(B.mk_story(f'S{i}', slug='s', timing=draw(gen.timing('any')), body=body))
-    return {'ro_xml': B.tostring(B.envelope(B.ro_create('RO1', stories), 5), pretty=draw(st.booleans()))}
+    xml = B.tostring(B.envelope(B.ro_create('RO1', stories), 5), pretty=draw(st.booleans()))
+    if draw(st.integers(0, 3)) == 0:
+        # comments / processing instructions in the middle of paragraph text: not part of the text
+        import re
+        ins = draw(st.sampled_from(['<!-- c -->', '<!--(note)-->', '<?pi x?>', '<!-- a --><!-- b -->']))
+        xml = re.sub(r'(<p>[^<]*?[^<\s])( )', lambda m_: m_.group(1) + ins + m_.group(2), xml,
+                     count=draw(st.integers(1, 3)))
+    return {'ro_xml': xml}
 
 
 def shard_paras(args):
